@@ -839,7 +839,7 @@ pub fn world_b_limits(property: &str, scenario: &str, seed: u64, run: u64, thoro
         let cad = Cadence { period_us: r.range(5_000, 50_000), jitter: 0.3, stall_p: 0.0, stall_max_us: 0, flush_after_step_p: 0.0 };
         // how the connection ends
         let t_end = (t_create + r.range(3_000_000, horizon / 3)).min(horizon);
-        let ending = r.below(13);
+        let ending = r.below(14);
         if ending != 7 {
             plan.params.insert(format!("created_ep{}", c), 1.0);
         }
@@ -853,6 +853,14 @@ pub fn world_b_limits(property: &str, scenario: &str, seed: u64, run: u64, thoro
                 plan.push(ts, r.u32() | 1, if r.chance(0.5) { Op::Disconnect { ep: 0, to: Some(c) } } else { Op::DisconnectNow { ep: 0, to: Some(c) } });
                 plan.push(tc, r.u32() | 1, if r.chance(0.5) { Op::Disconnect { ep: c, to: None } } else { Op::DisconnectNow { ep: c, to: None } });
                 horizon
+            }
+            13 => {
+                // the server application hangs up gracefully with nothing left to flush, and the
+                // client vanishes before the request reaches it: the request is repeated for its
+                // budget and the entry is then forgotten
+                plan.push(t_end, r.u32() | 1, Op::Disconnect { ep: 0, to: Some(c) });
+                plan.push(t_end + r.below(latency.max(1)), 1, Op::Destroy { ep: c });
+                t_end
             }
             12 => {
                 // the client disconnects, the server application drops the closed entry, and the
